@@ -2,7 +2,7 @@ ENGINES = [
     {'name': 'X', 'path': 'lib/xworker.py', 'kind_free_text': 'CrossHair 0.0.110 symbolic execution of the real Python functions (z3 decides every branch), one OS process per condition, vacuity twin per condition, plain-CPython replay of every counterexample',
      'serves_properties': ['C01', 'C02', 'C03', 'C04', 'C05', 'C06', 'C07', 'C08', 'C09', 'C10', 'C11', 'C12', 'C13', 'C14', 'C15', 'C16', 'C17', 'C18', 'C19', 'C20']},
     {'name': 'Z', 'path': 'lib/zworker.py', 'kind_free_text': 'z3 sequence-theory queries over SHA-1 pre-image terms recorded by executing the real digest code on symbolic strings (lib/zsym.py); sat models replayed on the real functions with the real hashlib',
-     'serves_properties': ['C02', 'C03', 'C07']},
+     'serves_properties': ['C02', 'C03', 'C07', 'C11']},
 ]
 NOTES = ('Technique family: solver-based checking of the real code. Every result is bounded; bounds, stubs and '
          'assumptions are in evidence/<id>.json and DESIGN.md. Exit 2 of ./check = harness error (never a verdict).')
@@ -122,13 +122,17 @@ CLAIMS = {
         note='Trusted: SHA-1 injectivity, the script model. Outside: live-build-id prediction and the restart after a wrong prediction (seeded change C07-m2 is not detected), forced download modes, packages= / layer modes, '
              'other transports, fingerprint script execution, emulated host fingerprints.'),
     'C11': dict(
-        engine='X',
-        technique='bounded symbolic histories / entry pairs (CrossHair+z3 choose modifications and entry attributes) through the real DirHasher and FileIndex on a stub file system',
+        engine='X+Z',
+        technique='bounded symbolic histories / entry pairs (CrossHair+z3 choose modifications and entry attributes) through the real DirHasher and FileIndex on a stub file system; '
+                  'z3 collision queries (sequence theory, and a bounded array lowering of the recorded term for names up to 255 bytes) over the SHA-1 pre-image recorded by executing the real DirHasher on symbolic names / modes / contents',
         text='Cache transparency: for every history of <= 3 modifications (13 kinds x 3 targets, each changing inode, size, mtime or ctime) of a tree, the hash computed with the persistent index equals the hash without it after '
              'every step (incl. warm re-run). Exactness: for a base tree plus one symbolic entry per side (4 names x 6 kinds x mode x content) hashes are equal iff name, type, permission bits and content/link text agree; '
-             'timestamps, inode numbers, listing order and what a symlink resolves to do not matter; SCM directories are ignored.',
+             'timestamps, inode numbers, listing order and what a symlink resolves to do not matter; SCM directories are ignored. '
+             'Blob decodability (z3): for all directories with <= 2 (thorough 3) entries per side of any of 6 types, one nesting level, ANY names of 1..4 bytes without NUL and "/", any of the 12 permission bits, contents / link targets / device numbers: '
+             'equal top-level pre-image (SHA-1 injective) implies equal entry lists; step lemma for names of 1..255 bytes and all 7 types: an entry followed by nothing or by another entry (as the real code encodes it) and arbitrary bytes decodes uniquely '
+             '(entry and the position where it ends), which by induction over the entry list (paper argument) extends decodability to any number of entries.',
         design_ref='DESIGN.md section 4, C11',
-        note='Trusted: SymFS stat model, SHA-1. Outside: unique decodability of the directory blob for arbitrary names (planned z3 query), device/fifo nodes, trees larger than the bound.'),
+        note='Trusted: SymFS stat model, SHA-1. The z3 terms are recorded from the real code per shape and validated against real directories (mkfifo/mknod/symlink/chmod) with the real hashlib. Outside: hashFile chunking (one read per file), the induction step itself, trees larger than the bounds.'),
     'C13': dict(
         engine='X',
         technique='CrossHair+z3 symbolic execution of the quoting function on symbolic strings against a shell word-lexer model; CrossHair enumeration of variable declarations through the real Recipe.prepare pipeline; '
